@@ -59,7 +59,8 @@ func genSettleScenario(r *kernel.Rand, prop string) *kernel.Scenario {
 			j := r.Intn(len(openSubs))
 			// mid: between the sub-channel's final update and its settlement the parent
 			// moves on (1: a payment in the parent, from side mid_from)
-			sc.Steps = append(sc.Steps, kernel.St("sub-close", "sub", openSubs[j], "amt", amt, "mid", r.Weighted([]int{2, 1}), "mid_from", r.Intn(2)))
+			sc.Steps = append(sc.Steps, kernel.St("sub-close", "sub", openSubs[j], "amt", amt, "mid", r.Weighted([]int{2, 1}), "mid_from", r.Intn(2),
+				"late_ms", []int{0, 0, 0, 0, 600, 1500}[r.Intn(6)]))
 			openSubs = append(openSubs[:j], openSubs[j+1:]...)
 		default:
 			sc.Steps = append(sc.Steps, kernel.St("pay", "from", r.Intn(2), "amt", amt, "coe", r.Weighted([]int{6, 1})))
@@ -215,7 +216,7 @@ func execSettle(t *testing.T, sc *kernel.Scenario, trace bool) *kernel.Result {
 						side := int(st.Int("mid_from")) & 1
 						p.midClose = func() { p.pay(i, p.chans[0][side], side, 1+st.Int("amt")%7, payTO, false) }
 					}
-					p.subClose(i, k, st.Int("amt"))
+					p.subCloseLate(i, k, st.Int("amt"), st.Int("late_ms"))
 					p.midClose = nil
 				}
 			case "adv-register":
@@ -339,6 +340,15 @@ func (p *pair) subOpen(step int, st *kernel.Step) {
 // subClose: index 0 of the sub-channel proposes the final state, then both
 // settle the sub-channel into the parent (as client/test's Susie and Tim do).
 func (p *pair) subClose(step, k int, amt int64) {
+	p.subCloseLate(step, k, amt, 0)
+}
+
+// subCloseLate: with lateMs>0 the two users do not settle the final
+// sub-channel at the same time: the side that waits for the parent update
+// gives up after 300 ms, the side that sends it starts lateMs later (and
+// gives up after a second, since nobody answers). The sub-channel then stays
+// open and final; the ledger channel's settlement has to pay it out.
+func (p *pair) subCloseLate(step, k int, amt int64, lateMs int64) {
 	si := &p.subs[k]
 	side0 := 0
 	if si.chans[1].Idx() == 0 {
@@ -352,6 +362,26 @@ func (p *pair) subClose(step, k int, amt int64) {
 		p.midClose() // the parent moves on before the sub-channel is settled into it
 	}
 	errs := make(chan error, 2)
+	if lateMs > 0 {
+		p.s.Count("fault.sub_settle_out_of_step", 1)
+		for n, side := range []int{1 - side0, side0} {
+			side, to := side, []time.Duration{300 * time.Millisecond, time.Second}[n]
+			go func() {
+				ctx, cancel := context.WithTimeout(context.Background(), to+p.s.Delay(fmt.Sprintf("ctx:late-sub-settle:%d:%d", step, side), 0, time.Millisecond))
+				defer cancel()
+				err := si.chans[side].Settle(ctx, side != side0)
+				p.s.Event(p.n[side].Name, "driver:sub-settle", fmt.Sprintf("%s (out of step) err=%v", p.s.ChanName(si.id), err))
+				errs <- err
+			}()
+			if n == 0 {
+				time.Sleep(time.Duration(lateMs)*time.Millisecond + p.s.Delay(fmt.Sprintf("driver:late-subsettle-gap:%d", step), 0, time.Millisecond))
+			}
+		}
+		if e1, e2 := <-errs, <-errs; e1 == nil && e2 == nil {
+			si.closed = true
+		}
+		return
+	}
 	for _, side := range []int{side0, 1 - side0} {
 		side := side
 		go func() {
